@@ -436,6 +436,17 @@ fn LogMetaBlock<'a, Alloc: BrotliAlloc, Cb>(
         &mut Alloc,
     ),
 {
+    #[cfg(brotli_verif)]
+    verif_recoder_hook::record(
+        commands,
+        input0,
+        input1,
+        dist_cache,
+        recoder_state,
+        &block_type,
+        params,
+        context_type.is_some(),
+    );
     let mut local_literal_context_map = [0u8; 256 * 64];
     let mut local_distance_context_map = [0u8; 256 * 64 + interface::DISTANCE_CONTEXT_MAP_OFFSET];
     assert_eq!(
@@ -3057,6 +3068,104 @@ pub fn BrotliWriteMetadataMetaBlock(
     BrotliWriteBits(8u8, u64::from(VERSION), storage_ix, storage);
     for sh in size_hint_b128[..size_hint_count].iter() {
         BrotliWriteBits(8u8, u64::from(*sh), storage_ix, storage);
+    }
+}
+
+/// Verification hook (compiled only with `--cfg brotli_verif`): a thread-local log of what enters
+/// `LogMetaBlock` (the raw `Command` array, the block-split description, the distance cache, the
+/// recoder position, the lengths of the two input slices and the parameters the recoder reads), so
+/// that a harness can run an executable model of `process_command_queue` on exactly the inputs of
+/// the real encoder and compare its output with the IR the callback receives.  Recording is off
+/// until `start()` is called on the thread.  No behaviour of the crate depends on it.
+#[cfg(brotli_verif)]
+pub mod verif_recoder_hook {
+    use super::*;
+    use std::cell::RefCell;
+    use std::vec::Vec;
+
+    #[derive(Clone, Debug, Default)]
+    pub struct SplitDump {
+        pub num_types: u32,
+        pub types: Vec<u8>,
+        pub lengths: Vec<u32>,
+    }
+
+    #[derive(Clone, Debug, Default)]
+    pub struct LogMetaBlockDump {
+        /// (insert_len_, copy_len_, dist_extra_, cmd_prefix_, dist_prefix_)
+        pub commands: Vec<(u32, u32, u32, u16, u16)>,
+        pub input0_len: usize,
+        pub input1_len: usize,
+        pub dist_cache: [i32; 4],
+        pub num_bytes_encoded: usize,
+        pub btypel: SplitDump,
+        pub btypec: SplitDump,
+        pub btyped: SplitDump,
+        pub literal_context_map_len: usize,
+        pub distance_context_map_len: usize,
+        pub distance_postfix_bits: u32,
+        pub num_direct_distance_codes: u32,
+        pub lgwin: i32,
+        pub high_entropy_detection_quality: u8,
+        pub context_type_is_some: bool,
+    }
+
+    thread_local! {
+        static SINK: RefCell<Option<Vec<LogMetaBlockDump>>> = RefCell::new(None);
+    }
+
+    /// start recording on this thread (drops anything recorded before)
+    pub fn start() {
+        SINK.with(|s| *s.borrow_mut() = Some(Vec::new()));
+    }
+
+    /// stop recording and hand back the dumps in call order
+    pub fn take() -> Vec<LogMetaBlockDump> {
+        SINK.with(|s| s.borrow_mut().take().unwrap_or_default())
+    }
+
+    fn split(b: &BlockSplitRef) -> SplitDump {
+        SplitDump {
+            num_types: b.num_types,
+            types: b.types.to_vec(),
+            lengths: b.lengths.to_vec(),
+        }
+    }
+
+    pub(super) fn record(
+        commands: &[Command],
+        input0: &[u8],
+        input1: &[u8],
+        dist_cache: &[i32; kNumDistanceCacheEntries],
+        recoder_state: &RecoderState,
+        block_type: &MetaBlockSplitRefs,
+        params: &BrotliEncoderParams,
+        context_type_is_some: bool,
+    ) {
+        SINK.with(|s| {
+            if let Some(v) = s.borrow_mut().as_mut() {
+                v.push(LogMetaBlockDump {
+                    commands: commands
+                        .iter()
+                        .map(|c| (c.insert_len_, c.copy_len_, c.dist_extra_, c.cmd_prefix_, c.dist_prefix_))
+                        .collect(),
+                    input0_len: input0.len(),
+                    input1_len: input1.len(),
+                    dist_cache: [dist_cache[0], dist_cache[1], dist_cache[2], dist_cache[3]],
+                    num_bytes_encoded: recoder_state.num_bytes_encoded,
+                    btypel: split(&block_type.btypel),
+                    btypec: split(&block_type.btypec),
+                    btyped: split(&block_type.btyped),
+                    literal_context_map_len: block_type.literal_context_map.len(),
+                    distance_context_map_len: block_type.distance_context_map.len(),
+                    distance_postfix_bits: params.dist.distance_postfix_bits,
+                    num_direct_distance_codes: params.dist.num_direct_distance_codes,
+                    lgwin: params.lgwin,
+                    high_entropy_detection_quality: params.high_entropy_detection_quality,
+                    context_type_is_some,
+                });
+            }
+        });
     }
 }
 
